@@ -57,9 +57,7 @@ M("C04", "retry-off-by-one", A,
 M("C04", "retry-count-not-restored", A,
   "            self.retryCount = saveCount\n", "", "C04.R5", "indication() zeroes the counter: endless retries")
 M("C04", "server-retry-not-counted", A,
-  "            self.segmentRetryCount += 1\n            self.start_timer(self.segmentTimeout)\n            self.fill_window(self.initialSequenceNumber)\n        else:",
-  "            self.start_timer(self.segmentTimeout)\n            self.fill_window(self.initialSequenceNumber)\n        else:", "C04.R5", "server segment retries unbounded")
-# --- R6
+  "            self.segmentRetryCount += 1\n            self.start_timer(self.segmentTimeout)\n\n            # no segment ack yet", "            self.start_timer(self.segmentTimeout)\n\n            # no segment ack yet", "C04.R5", "server segment retries unbounded")
 M("C04", "complete-not-idempotent", "iocb.py",
   "        elif iocb.ioState == ABORTED:\n            pass\n\n        else:\n            # change the state\n            iocb.ioState = COMPLETED",
   "        else:\n            # change the state\n            iocb.ioState = COMPLETED", "C04.R6", "a timed-out (aborted) block is completed again by a late reply")
